@@ -176,6 +176,32 @@ def template_letters(skel):
     return re.findall(r'(?<![A-Za-z])([A-Za-z])\{', skel)
 
 
+def exact_tracking(f, gcode):
+    """[(function, construct, message)] when, after a G0/G1 that carries a numeric word for an axis, the tracked native
+    position is not the one a firmware reaches: logical*unit + offset + homeOffset in absolute positioning,
+    current + logical*unit in relative positioning (whatever the region tests answered)"""
+    out = []
+    if gcode not in ('G0', 'G1') or ('ExcludeRegionState', 'processLinearMoves') not in f.calls:
+        return out
+    from .poly import Poly
+    for axis, letter in (('X_AXIS', 'X'), ('Y_AXIS', 'Y'), ('Z_AXIS', 'Z')):
+        if 'V' not in f.pstatus(letter):
+            continue
+        aoid = '%s.position.%s' % (S_OID, axis)
+        key = ('param', CMDKEY, letter)
+        w = Poly.sym('p:%s' % letter) * Poly.sym(aoid + '.unitMultiplier')
+        for mode in (True, False):
+            want = w + (Poly.sym(aoid + '.offset') + Poly.sym(aoid + '.homeOffset') if mode else Poly.sym(aoid + '.current'))
+            assume = {key: frozenset(['V']), ('fld', aoid, 'absoluteMode'): frozenset([mode])}
+            for v in f.final(aoid, 'current', assume):
+                if isinstance(v, Num) and v.p != want:
+                    out.append(('ExcludeRegionState.isAnyPointExcluded',
+                                '%s %s tracked at the wrong place (%s positioning)' % (gcode, letter, 'absolute' if mode else 'relative'),
+                                'after the move the tracked %s is %r; the printer is at %r' % (letter, v.p, want)))
+                    break
+    return out
+
+
 def tracking_violations(f, gcode, I):
     """[(function, construct, message)] when the tracked X/Y/Z does not follow the move on this path"""
     out = []
@@ -210,4 +236,5 @@ def tracking_violations(f, gcode, I):
                 out.append(('ExcludeRegionState.processLinearMoves', '%s %s word not tracked' % (gcode, letter),
                             'the move carries a %s word but the tracked position does not follow it (enabled=%s, excluded=%s)'
                             % (letter, f.pre_enabled, f.any_excluded)))
+    out.extend(exact_tracking(f, gcode))
     return out
